@@ -208,3 +208,92 @@ Example C08_history_example :
   /\ agree_t (History stale_shape) = false /\ ok_t (History stale_shape) = false
   /\ agree_t (History stale_graph) = false /\ ok_t (History stale_graph) = false.
 Proof. vm_compute. repeat split. Qed.
+
+(** ---- the model's evaluation IS the product specification (composition with C03) ---- *)
+From Elfi Require Import Proofs.C03_Twins Proofs.C08_Compose.
+
+(** For EVERY well-formed model (distinct node names, edges between existing nodes, one edge per
+    ordered pair, no node named like a runtime node, observed data only on observable nodes without
+    a constant output) and every well-formed request: whatever the modelled ModelPrior._evaluate_pdf
+    returns - augmentation by add_pdf_nodes, then ElfiModel.generate of the joint node (compile,
+    load, execute), then the reduce - is the product (sum of logs) of the conditional density
+    factors pdf_p(x_p; values of p's positional parents at x), a parent's value being the supplied
+    column or the constant.  Nothing is assumed about the names "_p_pdf" / "_joint" or about cycles:
+    evaluation fails when they clash or when a requested parameter is its own parent. *)
+Theorem C08_evaluate_is_joint_spec :
+  forall m P log x t,
+    wfsrc m ->
+    wf_request m P = true ->
+    map fst x = P ->
+    evaluate m P log x = Ok t ->
+    joint_spec m P log x = Some t.
+Proof. exact evaluate_is_joint_spec. Qed.
+Print Assumptions C08_evaluate_is_joint_spec.
+
+(** The same with any supplied point whose columns are distinct nodes of the user's model and cover
+    the requested parameters (extra columns may override constants: both sides read the column). *)
+Theorem C08_evaluate_is_joint_spec_gen :
+  forall m P log x t,
+    wfsrc m ->
+    wf_request m P = true ->
+    NoDup (map fst x) ->
+    (forall k, In k (map fst x) -> has k (s_nodes m) = true) ->
+    (forall p, In p P -> In p (map fst x)) ->
+    evaluate m P log x = Ok t ->
+    joint_spec m P log x = Some t.
+Proof. exact evaluate_is_joint_spec_gen. Qed.
+Print Assumptions C08_evaluate_is_joint_spec_gen.
+
+(** On such a request the specification is defined: the theorem is not vacuous on the right. *)
+Theorem C08_joint_spec_factors_defined :
+  forall m P log x,
+    wf_request m P = true -> (forall p, In p P -> In p (map fst x)) ->
+    exists fs, Prior.all_some (map (factor m log x) P) = Some fs.
+Proof. exact joint_factors_total. Qed.
+Print Assumptions C08_joint_spec_factors_defined.
+
+(** Non-vacuity: a hierarchical model with a simulator and observed data below the parameters
+    (p0 ~ dist_p0(0, 1), p1 ~ dist_p1(p0, 2), sim(p1, p0) observed, summary S, discrepancy d);
+    the request [p1; p0] satisfies every hypothesis (checked by computation) and the evaluation
+    returns a value, which the theorem identifies with the specification. *)
+Definition hst (o : option value) (op stoch obs uo bs par : bool) (id : string) : sstate :=
+  {| s_output := o; s_has_op := op; s_stochastic := stoch; s_observable := obs; s_uses_observed := uo;
+     s_uses_batch_size := bs; s_uses_meta := false; s_parameter := par; s_opid := id |}.
+Definition ex_hier : snet :=
+  {| s_nodes := [("_c0"%string, hst (Some (VConst 0)) false false false false false false ""%string);
+                 ("_c1"%string, hst (Some (VConst 1)) false false false false false false ""%string);
+                 ("p0"%string, hst None true true false false true true "dist_p0"%string);
+                 ("_c2"%string, hst (Some (VConst 2)) false false false false false false ""%string);
+                 ("p1"%string, hst None true true false false true true "dist_p1"%string);
+                 ("sim"%string, hst None true true true false true false "sim"%string);
+                 ("S"%string, hst None true false true false false false "S"%string);
+                 ("d"%string, hst None true false false true false false "d"%string)];
+     s_edges := [("_c0"%string, "p0"%string, PInt 0); ("_c1"%string, "p0"%string, PInt 1);
+                 ("p0"%string, "p1"%string, PInt 0); ("_c2"%string, "p1"%string, PInt 1);
+                 ("p1"%string, "sim"%string, PInt 0); ("p0"%string, "sim"%string, PInt 1);
+                 ("sim"%string, "S"%string, PInt 0); ("S"%string, "d"%string, PInt 0)];
+     s_observed := [("sim"%string, VConst 5)] |}.
+Definition ex_hier_P : list name := ["p1"%string; "p0"%string].
+Definition ex_hier_x : list (name * value) := [("p1"%string, VConst 71); ("p0"%string, VConst 70)].
+Definition ex_hier_t (log : bool) : value :=
+  VApp (OpUser (if log then "add" else "mul")%string)
+       [VApp (OpUser (pdf_opid log "dist_p1"%string)) [VConst 71; VConst 70; VConst 2] [];
+        VApp (OpUser (pdf_opid log "dist_p0"%string)) [VConst 70; VConst 0; VConst 1] []] [].
+
+Example C08_compose_example_hypotheses :
+  wfsrc_b ex_hier = true /\ wf_request ex_hier ex_hier_P = true /\ map fst ex_hier_x = ex_hier_P
+  /\ evaluate ex_hier ex_hier_P false ex_hier_x = Ok (ex_hier_t false)
+  /\ evaluate ex_hier ex_hier_P true ex_hier_x = Ok (ex_hier_t true).
+Proof. vm_compute. repeat split. Qed.
+
+(** ... and the conclusion obtained from the theorem, not by evaluating the specification *)
+Example C08_compose_example :
+  forall log, joint_spec ex_hier ex_hier_P log ex_hier_x = Some (ex_hier_t log).
+Proof.
+  intros log. apply C08_evaluate_is_joint_spec.
+  - apply wfsrc_b_sound. vm_compute. reflexivity.
+  - vm_compute. reflexivity.
+  - reflexivity.
+  - destruct log; vm_compute; reflexivity.
+Qed.
+Print Assumptions C08_compose_example.
